@@ -54,9 +54,15 @@ VetoOK(c) ==
 \* writer descheduled after the system call), so the whole exchange -- handler, reply, reply handling -- is over
 \* before the calling goroutine is back from its write.  The outcome the caller sees must be the same.
 AllProf == [L |-> "all", G |-> "all", H |-> "all", R |-> "all"]
+\* kind = "badtype": a well-formed frame whose type byte is none of CALL / REPLY / PUSH arrives on the live session
+\* (mtype says which: 0 undefined, 4 / 5 the authentication types, 9 and 255 unassigned); it is answered by disconnecting
+BadTypes == {"t0", "t4", "t5", "t9", "t255"}
 Cfgs == {c \in [kind : Kinds, route : Routes, prof : ProfSets, veto : Vetoes, vkind : {"veto", "panic"},
-                hout : Houts, dec : {"ok", "bad"}, rdec : {"ok", "bad"}, wret : {"atonce", "late"}] :
+                hout : Houts, dec : {"ok", "bad"}, rdec : {"ok", "bad"}, wret : {"atonce", "late"}, mtype : {"std"} \cup BadTypes] :
            /\ VetoOK(c)
+           /\ (c.kind = "badtype" <=> c.mtype # "std")
+           /\ (c.kind = "badtype" => c.route = "reg" /\ c.prof = AllProf /\ c.veto = NoVeto /\ c.vkind = "veto" /\ c.hout = "ok"
+                                     /\ c.dec = "ok" /\ c.rdec = "ok" /\ c.wret = "atonce")
            /\ (c.wret = "late" => c.veto = NoVeto /\ c.kind = "call" /\ c.dec = "ok" /\ c.prof = AllProf /\ c.vkind = "veto")
            /\ (c.vkind = "panic" => c.veto # NoVeto /\ c.veto[1] # "CL" /\ c.veto[2] # "PreReadHeader")
            /\ (c.hout = "unpackable" => c.kind = "call" /\ c.route = "reg")
@@ -66,7 +72,7 @@ Cfgs == {c \in [kind : Kinds, route : Routes, prof : ProfSets, veto : Vetoes, vk
 VARIABLES cfg, pc, cont, stat, hooks, chooks, invoked, replies, wstat, cstat, disc, written
 vars == <<cfg, pc, cont, stat, hooks, chooks, invoked, replies, wstat, cstat, disc, written>>
 
-Init == /\ cfg \in Cfgs /\ pc = "cPreWrite" /\ cont = G_ /\ stat = "ok"
+Init == /\ cfg \in Cfgs /\ pc = (IF cfg.kind = "badtype" THEN "sBadType" ELSE "cPreWrite") /\ cont = G_ /\ stat = "ok"
         /\ hooks = <<>> /\ chooks = <<>> /\ invoked = 0 /\ replies = 0
         /\ wstat = "-" /\ cstat = "-" /\ disc = FALSE /\ written = FALSE
 
@@ -180,7 +186,11 @@ SReaderPanic == \* a plugin panicking inside the read loop (header / pre-body st
   /\ IF cfg.kind = "call" THEN cstat' = "connerr" ELSE UNCHANGED cstat
   /\ UNCHANGED <<cfg, cont, stat, hooks, chooks, invoked, replies, wstat, written>>
 
-Next == SReaderPanic \/ CPreWrite \/ CPostWrite \/ SPreHeader \/ SPostHeader \/ SPreBody \/ SHandle \/ SPreReply \/ SWrite \/ CReadHeader \/ CReply
+SBadType ==    \* binding: "message type not allowed"; handle: log and disconnect -- no hook of any stage, no handler, no reply
+  /\ pc = "sBadType" /\ pc' = "end" /\ disc' = TRUE /\ written' = TRUE
+  /\ UNCHANGED <<cfg, cont, stat, hooks, chooks, invoked, replies, wstat, cstat>>
+
+Next == SBadType \/ SReaderPanic \/ CPreWrite \/ CPostWrite \/ SPreHeader \/ SPostHeader \/ SPreBody \/ SHandle \/ SPreReply \/ SWrite \/ CReadHeader \/ CReply
 Spec == Init /\ [][Next]_vars
 
 -----------------------------------------------------------------------------
@@ -190,6 +200,7 @@ PreHandlerStages == {"PostReadCallHeader", "PreReadCallBody", "PostReadCallBody"
 \* C03: at most one handler; exactly one reply per CALL unless disconnected; never a reply to a PUSH
 AtMostOneHandler == invoked <= 1
 OneReply == Done /\ written /\ ~disc => (IF cfg.kind = "call" THEN replies = 1 ELSE replies = 0)
+BadTypeDisconnects == Done /\ cfg.kind = "badtype" => disc /\ invoked = 0 /\ replies = 0 /\ hooks = <<>>
 \* C09: each (plugin, stage) at most once per message
 HookOnce == \A i, j \in 1..Len(hooks) : i # j => hooks[i] # hooks[j]
 \* C09: a veto before the handler => handler not invoked and the caller gets that status
